@@ -2,6 +2,8 @@ package props
 
 import (
 	"bytes"
+	"crypto/sha256"
+	"encoding/binary"
 	"fmt"
 	"math/big"
 	"runtime"
@@ -55,6 +57,20 @@ func runHammer(r *mon.Run, id string, rounds int, build func(rng *gen.Rng, w *mo
 		}
 		G := r.N(16, 32)
 		iters := r.N(3000, 30000)
+		// bulk churn: very many cheap, UNCHECKED calls on distinct inputs (derived from a counter),
+		// whose only purpose is to roll over whatever the library remembers between calls, however
+		// large (the checked operations - the long-lived objects above all - run among them and after)
+		var bulk func(k int)
+		bulkN := 0
+		if mk := hammerBulk[id]; mk != nil {
+			bulkN, bulk = mk(r, w.Rng)
+			w.ClassN(lc+":hammer:bulk-churn-calls", int64(bulkN))
+		}
+		bulkPer := 0
+		if bulk != nil {
+			bulkPer = (bulkN + G*iters - 1) / (G * iters)
+		}
+		var bulkNext atomic.Int64
 		type bad struct {
 			name      string
 			got, want []byte
@@ -100,6 +116,11 @@ func runHammer(r *mon.Run, id string, rounds int, build func(rng *gen.Rng, w *mo
 						bads[g] = append(bads[g], bad{op.name, got, op.want, g, it})
 					}
 					n++
+					for b := 0; b < bulkPer; b++ {
+						if k := int(bulkNext.Add(1)); k <= bulkN {
+							bulk(k)
+						}
+					}
 					if len(churn) > 0 && it%2 == 1 {
 						k := int(next.Add(1)-1) % len(churn)
 						c := &churn[k]
@@ -598,4 +619,72 @@ func famParseChurn(rng *gen.Rng, n int) []hammerOp {
 		}})
 	}
 	return ops
+}
+
+// hammerBulk: per property, how many bulk-churn calls and what one call does with counter k.
+// Inputs are SHA-256(seed, k)-derived; about half of the random x-coordinates are on the curve.
+var hammerBulk = map[string]func(r *mon.Run, rng *gen.Rng) (int, func(k int)){
+	"C06": func(r *mon.Run, rng *gen.Rng) (int, func(k int)) {
+		salt := rng.Bytes(16)
+		return r.N(180000, 3000000), func(k int) { _, _ = secp256k1.NewPointFromBytes(bulkCompressed(salt, k)) }
+	},
+	"C10": func(r *mon.Run, rng *gen.Rng) (int, func(k int)) {
+		salt := rng.Bytes(16)
+		return r.N(160000, 2500000), func(k int) { _, _ = secec.NewPublicKey(bulkCompressed(salt, k)) }
+	},
+	"C11": func(r *mon.Run, rng *gen.Rng) (int, func(k int)) {
+		salt := rng.Bytes(16)
+		return r.N(160000, 2500000), func(k int) {
+			x, _ := secp256k1.NewScalarFromBytes((*[32]byte)(bulkCompressed(salt, k)[1:]))
+			_, _ = secp256k1.RecoverPoint(x, byte(k&3))
+		}
+	},
+	"C12": func(r *mon.Run, rng *gen.Rng) (int, func(k int)) {
+		salt := rng.Bytes(16)
+		return r.N(160000, 2500000), func(k int) { _, _ = secec.ParseASN1PublicKey(oracle.SPKIWrite(bulkCompressed(salt, k))) }
+	},
+	"C13": func(r *mon.Run, rng *gen.Rng) (int, func(k int)) {
+		salt := rng.Bytes(16)
+		return r.N(180000, 3000000), func(k int) { _, _ = bitcoin.NewSchnorrPublicKey(bulkCompressed(salt, k)[1:]) }
+	},
+	"C07": func(r *mon.Run, rng *gen.Rng) (int, func(k int)) {
+		// distinct KEYS through the verifier (whatever it remembers per key)
+		salt := rng.Bytes(16)
+		dig := rng.Bytes(32)
+		sig := oracle.DERWriteSig(big.NewInt(0x1234567), big.NewInt(0x7654321))
+		return r.N(20000, 400000), func(k int) {
+			if key, err := secec.NewPublicKey(bulkCompressed(salt, k)); err == nil {
+				_ = key.Verify(dig, sig, nil)
+			}
+		}
+	},
+	"C16": func(r *mon.Run, rng *gen.Rng) (int, func(k int)) {
+		// distinct POINTS through the variable-time double-scalar multiply
+		salt := rng.Bytes(16)
+		u := scalarFromBig(big.NewInt(0x1234567))
+		return r.N(20000, 400000), func(k int) {
+			if p, err := secp256k1.NewPointFromBytes(bulkCompressed(salt, k)); err == nil {
+				_ = new(Point).DoubleScalarMultBasepointVartime(u, u, p)
+			}
+		}
+	},
+	"C04": func(r *mon.Run, rng *gen.Rng) (int, func(k int)) {
+		salt := rng.Bytes(16)
+		u := scalarFromBig(big.NewInt(0x1234567))
+		return r.N(12000, 250000), func(k int) {
+			if p, err := secp256k1.NewPointFromBytes(bulkCompressed(salt, k)); err == nil {
+				_ = new(Point).ScalarMult(u, p)
+			}
+		}
+	},
+}
+
+// bulkCompressed: 02/03 || x with x = SHA-256(salt, k) (cut below p by clearing nothing: a value
+// >= p is one more invalid input).
+func bulkCompressed(salt []byte, k int) []byte {
+	var in [24]byte
+	copy(in[:16], salt)
+	binary.LittleEndian.PutUint64(in[16:], uint64(k))
+	h := sha256.Sum256(in[:])
+	return append([]byte{byte(2 + k&1)}, h[:]...)
 }
